@@ -305,6 +305,16 @@ def main():
     for c in level2:
         if tuple(c.names) in must:
             chosen.append(c)
+    # three-adapter chains in which the iteration direction has to flow through a state-carrying
+    # adapter into a direction-sensitive one (always included)
+    must3 = [("slice", "rev", "enumerate", "zip_slice"), ("slice", "rev", "skip", "zip_range"), ("slice", "rev", "take", "flat_map"),
+             ("slice", "rev", "skip_while", "flat_map"), ("nested", "flatten", "rev", "zip_slice"), ("slice", "flat_map", "rev", "flat_map"),
+             ("iter_copied", "rev", "enumerate", "flat_map"), ("range", "rev", "skip", "zip_slice")]
+    for c2 in level2:
+        if any(tuple(c2.names) == m[:3] for m in must3):
+            for nm, c3 in adapters_for(c2):
+                if tuple(c3.names) in must3:
+                    chosen.append(c3)
     seen = set()
     n = 0
     region = 0
@@ -314,7 +324,9 @@ def main():
         if key in seen or ch.shape == "A":
             continue
         seen.add(key)
-        if args.tier == "quick" and len(ch.names) >= 3:
+        if args.tier == "quick" and len(ch.names) >= 4:
+            cons = ["fold", "find"]
+        elif args.tier == "quick" and len(ch.names) >= 3:
             cons = [cons_all[(n + j * 5) % len(cons_all)] for j in range(2)] + (["for_each"] if tuple(ch.names) in must else [])
         elif args.tier == "quick" and len(ch.names) == 2:
             # every adapter with a seeded rotating subset of the consumers (all of them in the thorough tier)
@@ -323,6 +335,8 @@ def main():
         else:
             cons = cons_all
         for cname in dict.fromkeys(cons):
+            if args.tier == "quick" and cname == "for_each" and ("flat_map" in ch.names or "flatten" in ch.names) and len(ch.names) >= 3:
+                cname = "fold"   # for_each into a buffer after flat_map/flatten is too heavy for the quick tier; fold observes the same order
             name = "p%04d" % n
             r = program(fam, name, ch, cname)
             if r is None:
